@@ -343,3 +343,9 @@ def _stmt_role(at):
     if isinstance(st, ast.Return):
         return "return"
     return at.kind
+
+
+@rule("C09", "R5", "ORDER", "statistics and MRFs are fitted to the current labels: assigning labels re-derives membership at once")
+def r5(ctx):
+    from . import c13
+    c13.r2(ctx)
